@@ -56,20 +56,15 @@ func (r *Run) callSeqRec(fd *FuncDecl, onPath map[*FuncDecl]bool, depth int) []s
 				return true
 			}
 			f, _ := typeutil.Callee(u.Info, c).(*types.Func)
-			if f == nil || !InModule(f) {
+			if f == nil || !InModule(f) || r.trivialAccessor(f) {
 				return true
 			}
 			k := FuncKey(f)
 			// constant string arguments (correlation ids, labels) are part of the operation
 			var consts []string
 			for _, a := range c.Args {
-				if tv, has := u.Info.Types[a]; has && tv.Value != nil && tv.Value.Kind().String() == "String" {
-					consts = append(consts, tv.Value.ExactString())
-				} else if be, isB := ast.Unparen(a).(*ast.BinaryExpr); isB {
-					// prefix + "CONST"
-					if tv, has := u.Info.Types[be.Y]; has && tv.Value != nil && tv.Value.Kind().String() == "String" {
-						consts = append(consts, "+"+tv.Value.ExactString())
-					}
+				if cs := u.constStringArg(a, 0); cs != "" {
+					consts = append(consts, cs)
 				}
 			}
 			if len(consts) > 0 {
@@ -85,20 +80,117 @@ func (r *Run) callSeqRec(fd *FuncDecl, onPath map[*FuncDecl]bool, depth int) []s
 		})
 		sort.SliceStable(items, func(i, j int) bool { return items[i].pos < items[j].pos })
 		for _, it := range items {
-			out = append(out, it.text)
-			if it.helper != nil {
-				ps := newParamSubst(u, it.call)
-				sfx := ""
-				if lc := u.loopContext(it.call); len(lc) > 0 {
-					sfx = strings.Join(lc, " / ")
-				}
-				for _, op := range r.callSeqRec(it.helper, onPath, depth+1) {
-					out = append(out, mergeContexts(ps.apply(op), sfx, ""))
-				}
+			if it.helper == nil {
+				out = append(out, it.text)
+				continue
+			}
+			// an unexported helper is represented by the calls it makes (so that extracting, renaming or
+			// merging helpers changes nothing); a helper that makes none by its own name
+			ps := newParamSubst(u, it.call)
+			sfx := ""
+			if lc := u.loopContext(it.call); len(lc) > 0 {
+				sfx = strings.Join(lc, " / ")
+			}
+			inl := r.callSeqRec(it.helper, onPath, depth+1)
+			if len(inl) == 0 {
+				out = append(out, it.text)
+			}
+			for _, op := range inl {
+				out = append(out, mergeContexts(ps.apply(op), sfx, ""))
 			}
 		}
 	}
 	return out
+}
+
+// constStringArg: a constant string argument, or the constant suffix of `prefix + "CONST"`, also when
+// the argument was first stored in a local (`id := prefix + suffix; f(id)`).
+func (u *Unit) constStringArg(a ast.Expr, depth int) string {
+	a = ast.Unparen(a)
+	if tv, has := u.Info.Types[a]; has && tv.Value != nil {
+		if tv.Value.Kind().String() == "String" {
+			return tv.Value.ExactString()
+		}
+		return ""
+	}
+	switch x := a.(type) {
+	case *ast.BinaryExpr:
+		if tv, has := u.Info.Types[x.Y]; has && tv.Value != nil && tv.Value.Kind().String() == "String" {
+			return "+" + tv.Value.ExactString()
+		}
+	case *ast.Ident:
+		if depth < 3 {
+			if rhs := u.uniqueLocalDef(x); rhs != nil {
+				return u.constStringArg(rhs, depth+1)
+			}
+		}
+	}
+	return ""
+}
+
+// trivialAccessor: a function whose body is `return <field / constant / selector chain>`. Whether and
+// how often a getter is called is not behaviour (hoisting it out of a loop, caching it in a local).
+func (r *Run) trivialAccessor(f *types.Func) bool {
+	fd := r.Prog.Funcs[f.Origin()]
+	if fd == nil || fd.Decl.Body == nil || len(fd.Decl.Body.List) != 1 {
+		return false
+	}
+	ret, ok := fd.Decl.Body.List[0].(*ast.ReturnStmt)
+	if !ok || len(ret.Results) != 1 {
+		return false
+	}
+	pure := true
+	ast.Inspect(ret.Results[0], func(n ast.Node) bool {
+		switch n.(type) {
+		case *ast.CallExpr, *ast.CompositeLit, *ast.FuncLit:
+			pure = false
+		}
+		return pure
+	})
+	return pure
+}
+
+// callBase / callInLoop split an inventory entry `callee(consts) @loop-context`.
+func callBase(s string) string {
+	if i := strings.Index(s, " @"); i >= 0 {
+		return s[:i]
+	}
+	return s
+}
+
+func callInLoop(s string) bool { return strings.Contains(s, " @") }
+
+// callCovers: a reference entry is still performed by `now` when it is the same call and, if the
+// reference ran it inside a loop (once per element), it still runs inside a loop. Which loop, and how
+// the loop is written, is left to the operand shapes of the guard and transcript inventories.
+func callCovers(ref, now string) bool {
+	return callBase(ref) == callBase(now) && (!callInLoop(ref) || callInLoop(now))
+}
+
+// firstUnmatchedCall: ordered-subsequence rule under callCovers; a run of identical reference entries
+// (an unrolled repetition) needs one occurrence.
+func firstUnmatchedCall(now, ref []string) (string, bool) {
+	i := 0
+	prev := ""
+	for _, want := range ref {
+		if want == prev {
+			continue
+		}
+		prev = want
+		found := false
+		for i < len(now) {
+			if callCovers(want, now[i]) {
+				found = true
+				i++
+				break
+			}
+			i++
+		}
+		if !found {
+			return want, false
+		}
+	}
+	return "", true
 }
 
 type seqRef struct {
@@ -154,7 +246,7 @@ func (r *Run) EmitSeqRef(name string, scope Scope) {
 }
 
 func (r *Run) CheckCallSeq(rule, name string, scope Scope, min int, ordered bool) {
-	r.Rule(rule, "operation order: for every function of the frozen reference ("+name+") the in-module calls (with their constant string arguments) include the reference calls – as an ordered subsequence for runners / exchange layer / hash-to-curve, as a multiset elsewhere – and every parameter that was used is still used; a replaced primitive, a skipped step, a changed correlation id / label or an ignored input is named")
+	r.Rule(rule, "operation order: for every function of the frozen reference ("+name+") every in-module call of the reference (resolved callee plus its constant string arguments; trivial getters excluded; unexported helpers replaced by the calls they make) is still made, and one made once per loop element is still made inside a loop; every parameter that was used is still used; a replaced primitive, a skipped step, a call hoisted out of its loop, a changed correlation id / label or an ignored input is named")
 	var ref seqRef
 	if err := readJSON(refPath(name), &ref); err != nil {
 		r.FailKind("anchor-unresolved", rule, "ref:"+name, err.Error())
@@ -178,7 +270,7 @@ func (r *Run) CheckCallSeq(rule, name string, scope Scope, min int, ordered bool
 		n++
 		now := r.callSeqOf(fd)
 		if ordered {
-			if miss, ok := firstUnmatched(now, ref.Functions[k]); ok {
+			if miss, ok := firstUnmatchedCall(now, ref.Functions[k]); ok {
 				r.Pass(rule, k, r.Prog.RelPos(fd.Decl.Pos()), fmt.Sprintf("%d calls in order", len(ref.Functions[k])))
 			} else {
 				r.Fail(rule, k+" :: "+miss, r.Prog.RelPos(fd.Decl.Pos()), "call `"+miss+"` is missing or out of order")
@@ -186,10 +278,6 @@ func (r *Run) CheckCallSeq(rule, name string, scope Scope, min int, ordered bool
 			continue
 		}
 		// order-insensitive: independent computations may be reordered freely
-		have := map[string]int{}
-		for _, c := range now {
-			have[c]++
-		}
 		okAll := true
 		want := map[string]int{}
 		for _, c := range ref.Functions[k] {
@@ -201,9 +289,16 @@ func (r *Run) CheckCallSeq(rule, name string, scope Scope, min int, ordered bool
 		}
 		sort.Strings(ws)
 		for _, c := range ws {
-			if have[c] < want[c] {
+			found := false
+			for _, h := range now {
+				if callCovers(c, h) {
+					found = true
+					break
+				}
+			}
+			if !found {
 				okAll = false
-				r.Fail(rule, k+" :: "+c, r.Prog.RelPos(fd.Decl.Pos()), fmt.Sprintf("call `%s` occurs %d time(s), reference has %d: the function no longer performs that operation", c, have[c], want[c]))
+				r.Fail(rule, k+" :: "+c, r.Prog.RelPos(fd.Decl.Pos()), fmt.Sprintf("call `%s` no longer occurs (or no longer once per element): the function no longer performs that operation", c))
 			}
 		}
 		if okAll {
